@@ -229,6 +229,31 @@ class Program:
         return [n for n in mod.symbols if not n.startswith("_")]
 
     # ------------------------------------------------------------------ resolution
+    _SPEC_ALIASES = {"np": "numpy", "pd": "pandas", "plt": "matplotlib.pyplot", "sns": "seaborn", "hc": "scipy.cluster.hierarchy", "distance": "scipy.spatial.distance",
+                     "squareform": "scipy.spatial.distance.squareform", "process": "rapidfuzz.process", "itertools": "itertools", "reduce": "functools.reduce",
+                     "lm": "logomaker", "tt": "tidytcells", "igraph": "igraph", "scipy": "scipy", "math": "math", "warnings": "warnings", "numpy": "numpy", "pandas": "pandas"}
+
+    def spec_alias(self, name: str) -> str | None:
+        """Meaning of an import alias used by a specification text when the module under analysis no longer imports it: the meaning that
+        every module of the package that does import the alias agrees on, else the conventional one."""
+        if not hasattr(self, "_alias_consensus"):
+            seen: dict = {}
+            for mn, mod in self.modules.items():
+                for nm, sym in mod.symbols.items():
+                    if sym[0] in ("modref", "from"):
+                        r = self.resolve_global(mn, nm)
+                        if r is not None and not r.startswith(PKG + ".") and r != PKG:
+                            seen.setdefault(nm, set()).add(r)
+            self._alias_consensus = {nm: next(iter(v)) for nm, v in seen.items() if len(v) == 1}
+        r = self._alias_consensus.get(name) or self._SPEC_ALIASES.get(name)
+        if r is None:
+            # a repository function / class / module constant with this bare name, if there is exactly one
+            cands = {q for q, f in self.functions.items() if f.cls is None and q.rsplit(".", 1)[1] == name and q.count(".") >= 1 and "<" not in q}
+            cands |= {q for q in self.classes if q.rsplit(".", 1)[1] == name} | {q for q in self.module_vars if q.rsplit(".", 1)[1] == name}
+            if len(cands) == 1:
+                r = next(iter(cands))
+        return r
+
     def resolve_global(self, modname: str, name: str, _depth=0) -> str | None:
         """Canonical dotted name of global ``name`` as seen from module ``modname``; None if unbound."""
         if _depth > 12:
